@@ -12,9 +12,11 @@ are generated from the evidence files (`tools/table82.py`). Wall times are for a
 16-core machine; the twenty quick checks together take about 13 minutes.
 
 '''+table+'''
-Thorough tiers (same axes, larger bounds) take between seconds (C04, C05, C17, C19) and
-about an hour (C07, which stops at its 60-minute budget and reports the level reached);
-the slowest others are C20 (21 min), C06 (16 min), C08 (14 min), C11 (13 min).
+Thorough tiers (same axes, larger bounds; all twenty were run on the final tree, at the
+same time as the seeded changes and refactorings, and were quiet) take between seconds (C04,
+C05, C17, C19) and an hour (C07, which stops at its 60-minute budget and reports the level
+reached); the slowest others, measured on the loaded machine: C06 25 min, C20 about 25 min,
+C16 18 min, C08 14 min, C03 13 min, C15 10 min, C11 9 min, C01, C13 and C18 8 min.
 
 '''
 s=s[:i]+new+s[j:]
